@@ -181,7 +181,8 @@ fn mode_name(m: Mode) -> &'static str {
     }
 }
 
-pub const KNOWN_FIELDS_CLASS: &str = "c15_boundaries_depend_on_fields_without_normalized_form";
+/// SURFACE | POS_ID | NORMALIZED_FORM (dic/subset.rs)
+const SUBSET_PLUGIN_FIELDS: u32 = (1 << 0) | (1 << 2) | (1 << 3);
 
 fn numeral_alphabet(c: char) -> bool {
     c.is_ascii_digit() || c == ',' || c == '.' || KANJI_DIGITS.contains(&c) || FULLWIDTH_DIGITS.contains(&c) || "十百千万億兆".contains(c)
@@ -214,10 +215,17 @@ pub fn subset_discrepancy(dict: &JapaneseDictionary, text: &str, mode: Mode, sub
                 && text[..b].chars().last().map(numeral_alphabet).unwrap_or(false)
                 && text[b..].chars().next().map(numeral_alphabet).unwrap_or(false)
         };
-        let known = sub.1 & (1 << 3) == 0 && tiles(&full) && tiles(&part) && ends1.symmetric_difference(&ends2).all(|b| inside_numeral(*b));
+        // Identical boundaries are promised only when the subset contains the fields the path-rewrite plugins read
+        // (surface, part of speech, normalised form: property C11); without them only the joining of numerals may differ,
+        // and the surfaces must still partition the input.
+        let promised = sub.1 & SUBSET_PLUGIN_FIELDS == SUBSET_PLUGIN_FIELDS;
+        let only_numeral_joining = tiles(&full) && tiles(&part) && ends1.symmetric_difference(&ends2).all(|b| inside_numeral(*b));
+        if !promised && only_numeral_joining {
+            return None;
+        }
         return Some((
             format!("mode {}: with fields {{{}}} the tokens are [{}], with all fields [{}]", mode_name(mode), sub.0, show(&part), show(&full)),
-            if known { KNOWN_FIELDS_CLASS } else { "" },
+            "",
         ));
     }
     for (a, b) in full.iter().zip(part.iter()) {
